@@ -25,7 +25,7 @@ static NodeOpts DiskOpts(const std::string& datadir)
     o.block_tree_db_in_memory = false;
     o.extra_args = {"-fastprune", "-checkblocks=0", "-checklevel=3"};
     if (g_prune) o.extra_args.push_back("-prune=1");
-    o.chainman_tweak = [](ChainstateManager::Options& c) { c.coins_view.batch_write_bytes = 300; };
+    o.chainman_tweak = [](ChainstateManager::Options& c) { c.coins_view.batch_write_bytes = 120; };
     o.load_chainstate = false;
     return o;
 }
@@ -50,12 +50,14 @@ struct Workload {
         std::sort(v.begin(), v.end(), [](auto& a, auto& b) { return a.second.height != b.second.height ? a.second.height < b.second.height : a.first < b.first; });
         return v;
     }
-    uint256 Deliver(const uint256& parent, int ntx, int nonce, int pad = 0)
+    // skip: leave the `skip` oldest spendable coins alone (the side branch spends coins the main branch does not,
+    // so a reorg RESTORES coins and a roll-back over partially written batches meets coins that already exist)
+    uint256 Deliver(const uint256& parent, int ntx, int nonce, int pad = 0, int skip = 0)
     {
         const CBlockIndex* pi = n.index_of(parent);
         auto coins = Coins(parent);
         std::vector<CTransactionRef> txs;
-        for (int i = 0; i < ntx && i < (int)coins.size(); i++) {
+        for (int i = skip; i < ntx + skip && i < (int)coins.size(); i++) {
             CAmount v = coins[i].second.value;
             txs.push_back(SpendTx({coins[i].first}, {v / 3, v / 3, v - 2 * (v / 3) - 1000}));
         }
@@ -102,8 +104,8 @@ static int RunRecorder(const std::string& datadir, const std::string& logfile, c
         tip = w.Deliver(tip, 2, 0);
         w.Flush();                                  // multi-batch coins flush
         tip = w.Deliver(tip, 1, 0);
-        uint256 side = w.Deliver(fork, 1, 7);       // side branch (no reorg yet)
-        side = w.Deliver(side, 2, 7);               // equal work
+        uint256 side = w.Deliver(fork, 1, 7, 0, 4); // side branch (no reorg yet); spends other coins than the main branch
+        side = w.Deliver(side, 2, 7, 0, 4);         // equal work
         side = w.Deliver(side, 0, 7);               // -> reorg of depth 2
         w.Flush();
         if (big) {
@@ -354,7 +356,7 @@ int main(int argc, char** argv)
     E.exhaustive = !stopped_early;
     E.rule = "crash states = every prefix of the op log after set-up (process kill; + torn variants of a trailing write: 1, n/2, n-1 bytes) and every (cut j, crash point k) state where ops[0..j) plus the ops of [j,k) made durable by a sync before k survive (power loss, ordered suffix loss); deduplicated by the bytes of the materialised tree; each recovered by the real LoadChainstate + VerifyLoadedChainstate + ActivateBestChain in a fresh process. distinct_nontrivial = distinct (recovered tip, resumed tip) outcomes";
     E.assume("durability model: a write is durable once its file was fsync'ed afterwards; create/rename once the file or its directory was synced; no reordering inside the ordered op log beyond suffix loss");
-    E.assume("workload: 104-block base + blocks with transactions, forced flushes with 300-byte coins-DB batches, a depth-2 reorg" + std::string(big ? ", invalidate/reconsider, a restart in the middle, a manual prune deleting block files, further blocks (330-block padded base, prune mode)" : ""));
+    E.assume("workload: 104-block base + blocks with transactions, forced flushes with 120-byte coins-DB batches, a depth-2 reorg" + std::string(big ? ", invalidate/reconsider, a restart in the middle, a manual prune deleting block files, further blocks (330-block padded base, prune mode)" : ""));
     sfs::remove_all(g_scratch);
     if (outcomes.size() < 2 && done > 10) { printf("HARNESS-ERROR property=C16 vacuous: all recoveries produced the same outcome\n"); }
     return vx::finish();
